@@ -1,4 +1,4 @@
-#!/usr/bin/env python3
+#!/usr/bin/env python3-vt
 """regenerate MANIFEST.json from props/*.py (claimed) and properties.jsonl (the rest -> not_applicable)"""
 import json, os, sys, importlib
 sys.path.insert(0, os.path.dirname(os.path.abspath(__file__)))
